@@ -274,6 +274,67 @@ def _feasible(kind, p, F):
     return None
 
 
+# ----------------------------------------------------------------------------- (f) operator calls recorded inside real runs
+OP_CALLS = []   # (kind, parameter, input, output) of every proximal_operator call with a hard kind made by the initialiser / admm
+
+
+def rows_q(A):
+    return "[" + "; ".join("[" + "; ".join(C.q(float(x)) for x in row) + "]" for row in A) + "]"
+
+
+def sqrt_q(fr):
+    """rational s >= 0 with |s*s - fr| <= fr * 2^-80 (the value tl.norm stands for; Corr.C11.norm_ok checks the contract)"""
+    import math
+    from fractions import Fraction
+    if fr == 0:
+        return Fraction(0)
+    k = 100 + max(0, fr.denominator.bit_length() - fr.numerator.bit_length()) // 2 + 2
+    return Fraction(math.isqrt((fr.numerator << (2 * k)) // fr.denominator), 1 << k)
+
+
+def call_case(cid, k, p, a, out):
+    """Gallina `CCall` literal for one recorded call, or None when the call is outside the domain compared (non-finite values,
+    0/0 of normalize / normalized_sparsity, a parameter that is not a count, a non-matrix argument)"""
+    from fractions import Fraction
+    a, out = np.asarray(a, float), np.asarray(out, float)
+    if a.ndim != 2 or out.shape != a.shape or a.size == 0 or not (np.all(np.isfinite(a)) and np.all(np.isfinite(out))):
+        return None
+    aux = Fraction(0)
+    if k in ("hard_sparsity", "normalized_sparsity"):
+        if isinstance(p, (bool, np.bool_)) or not isinstance(p, (int, np.integer)) or p < 0:
+            return None
+    if k == "normalize" and not np.any(a != 0):
+        return None
+    if k == "normalized_sparsity":
+        from tensorly.tenalg.proximal import hard_thresholding
+        st, kept = C.call_impl(hard_thresholding, np.array(a, copy=True), p)
+        if st != "ok" or not np.any(np.asarray(kept) != 0):
+            return None
+        aux = sqrt_q(sum((Fraction(float(x)) ** 2 for x in np.asarray(kept, float).reshape(-1)), Fraction(0)))
+    scale = max(float(np.max(np.abs(a))), 1e-300)
+    if k in ("simplex", "soft_sparsity"):
+        scale = max(scale, abs(float(p)))
+    atol, rtol = Fraction(scale) / 10 ** 9, Fraction(1, 10 ** 9)
+    try:
+        return (f"CCall {idlit(cid)} {KCOQ[KINDS.index(k)]} {pv(p)} {C.q(aux)} {rows_q(a)} {rows_q(out)} {C.q(atol)} {C.q(rtol)}")
+    except (TypeError, ValueError, OverflowError):
+        return None
+
+
+def select_calls(tier):
+    """quick: <= 40 calls per kind spread evenly over the recorded ones (every kind that occurred is represented);
+    thorough: <= 400 per kind"""
+    per = 40 if tier == "quick" else 400
+    out = []
+    for k in HARD:
+        ks = [c for c in OP_CALLS if c[0] == k]
+        if len(ks) > per:
+            step = len(ks) / float(per)
+            ks = [ks[int(i * step)] for i in range(per)]
+        out += ks
+    return out
+
+
 # ----------------------------------------------------------------------------- real runs
 def make_data(cfg):
     rs = np.random.RandomState(cfg["seed"])
@@ -329,12 +390,15 @@ class Recorder:
         orig, PX, calls = self.orig, self.PX, self.calls
 
         def wrapper(tensor, *a, **kw):
+            inp = np.array(tensor, dtype=float, copy=True)
             out = orig(tensor, *a, **kw)
             try:
                 c, p = PX.validate_constraints(**kw)
             except Exception as e:  # noqa
                 c, p = "?", repr(e)
             calls.append((kw.get("order", 0), c, p, np.array(out, copy=True)))
+            if c in HARD and len(OP_CALLS) < 60000:
+                OP_CALLS.append((c, p, inp, np.array(out, dtype=float, copy=True)))
             return out
         for m in self.mods:
             m.proximal_operator = wrapper
@@ -996,6 +1060,7 @@ def load_corpus():
 def run(chk):
     rng = random.Random(chk.seed)
     del FEAS_OK[:]
+    del OP_CALLS[:]
     chk.build_proofs()
     C.reset_backends()
     tier = chk.tier
@@ -1104,6 +1169,21 @@ def run(chk):
         n_feas_coq += 1
     chk.cov["feasibility_decided_in_coq"] = n_feas_coq
 
+    # (f) operator calls recorded inside the runs above (initialiser, ADMM iterations, admm on its own): the operator family of the
+    # end-to-end theorems (Model/ConstraintsOps.v at Qops) on the recorded input vs the recorded output
+    n_calls = 0
+    for (k, p_, a, o) in select_calls(tier):
+        lit = call_case(len(cases), k, p_, a, o)
+        if lit is None:
+            chk.hist("op_call", "outside_domain")
+            continue
+        cases.append(lit)
+        meta.append(("call", k, p_, a, o))
+        chk.hist("op_call", k)
+        n_calls += 1
+    chk.cov["operator_calls_recorded"] = len(OP_CALLS)
+    chk.cov["operator_calls_compared_in_coq"] = n_calls
+
     failing, n_eval, broken = C.run_case_shards("C11", HEADER, "case", cases, shard=400)
     chk.checker_cmds.append("coqc (vm_compute) on generated build/cases/C11/*.v: Corr.C11.failing")
     chk.cov["traces_validated_against_impl"] = n_trace
@@ -1137,6 +1217,10 @@ def run(chk):
         elif m[0] == "feas":
             chk.disagreement("corr:C11 feasibility (Corr.C11.feasb on the exact rational value vs the Python predicate, which accepted the array)",
                              {"kind": m[1], "parameter": m[2], "array": m[3]})
+        elif m[0] == "call":
+            chk.disagreement("corr:C11 operator call (Model/ConstraintsOps.v op_gen at Qops - the operator family of the end-to-end theorems - vs the "
+                             "output of the proximal_operator call recorded inside a run)",
+                             {"kind": m[1], "parameter": m[2], "input": m[3], "observed": m[4]})
         elif m[0] == "admm":
             chk.disagreement("corr:C11 admm (Model/Constraints.v admm skeleton vs provenance of the primal variable returned by tensorly.solvers.admm.admm)",
                              {"cfg": m[1], "observed_provenance": m[2]})
